@@ -410,7 +410,16 @@ impl Chitchat {
         for key in previous_keys {
             node_state.remove_key_value_internal(&key);
         }
-        node_state.set_last_gc_version(last_gc_version);
+        // The supplied state may come from a peer that has not run its tombstone GC as far as we
+        // have: never move `last_gc_version` backward.
+        if last_gc_version > node_state.last_gc_version() {
+            node_state.set_last_gc_version(last_gc_version);
+        }
+        // The supplied state is complete up to `max_version`, which is greater than our max
+        // version (checked above), even if no key-value carries it (e.g. after a GC).
+        if max_version > node_state.max_version() {
+            node_state.set_max_version(max_version);
+        }
 
         let monotonic_property_after = node_state.monotonic_property();
 
